@@ -19,6 +19,9 @@ pool members.  Operations (an inapplicable one is skipped):
                                                  have (choose_copy: see Interp.choose_copy)
   ["filter_packages_tags"|"filter_packages_tags_copy", i, pkgs, tags]   keeps (p, ts) with p in pkgs or ts & tags
   ["filter_tags"|"filter_tags_copy", i, tags]
+                                                 every pkgs / tags above: a list of names, or - relative to what
+                                                 the target holds when the operation runs - {"keep": "all"} |
+                                                 {"keep": "none"} | {"keep": "all-but", "j": n} (Interp.selection)
   ["read", lines, filter, form]                  a new database read from text
   ["reread", i, lines, filter, form]             read() into a database that already holds a collection
   ["failread", i | null, lines, filter, form, k, "input" | "filter"]
@@ -38,13 +41,26 @@ changed.  An alias is documented as "use <method> instead", so exactly the same 
 DeprecationWarning is silenced for the duration of the case; a tree without some alias is asked
 under the snake_case name (label note:alias-missing-...).
 
-After every step every live database is compared with its reference state (model/c20_relation.py)
-through the public query methods.  A derivation documented as *sharing* sets with its source joins
-the source's sharing class; an insert into one member retires all other members of the class (their
-consistency is not promised).  A derivation documented as a *copy* starts a class of its own and
-must stay exact whatever happens to its source afterwards, and vice versa.  A database obtained
-through qread() is compared with the state its writer had at qwrite() time and is independent of
-everything.  A query (mquery) and a write-out (qwrite) must leave *every* database of the pool
+After every step EVERY live database of the pool - not only the one operated on - is compared with
+its reference state (model/c20_relation.py) through the public query methods.  Which sets two
+databases share is tracked from the docstrings alone (Interp.bind): reverse() "sharing tagsets"
+(the view's tagsets are the source's package sets and vice versa), choose_packages /
+filter_packages / filter_packages_tags "sharing tagsets" (the forward sets; the reverse index is
+the view's own), filter_tags "sharing package sets" (the reverse sets; the forward index is its
+own); every *copy* derivation, read() and qread() produce sets of their own.  An insert of a new
+package adds its name to the package sets of its tags and to nothing else, so after an insert every
+database that does not hold one of those very sets (and is not a reverse() view of the target)
+must show exactly what it showed before - a copy and its source whatever happens to either, and
+also a filter_packages / choose_packages view and its source, whatever the filter kept.  A database
+that does hold one of them (a filter_tags view, a reverse() view, their sources) may show the
+inserted name - its indexes are then not promised to be inverse - but nothing else may change
+(Interp.after_insert); it stays in the pool in the state it shows, and everything derived from it
+later must reflect that state: a derivation asked again of the same object after its data changed
+through another route (a sharing view, qread(), read(), the deprecated alias) is checked against the
+current data like the first one.  A database obtained through qread() is compared with the state
+its writer had at qwrite() time and is independent of everything.  A read()/qread() INTO a database
+retires the views that shared sets with its old content (what becomes of them is not documented).
+A query (mquery) and a write-out (qwrite) must leave *every* database of the pool
 exactly as it was; the value a multi-name query returns is only required to lie between the
 intersection and the union of the single-name answers (docstring "all" vs. computed union).
 The same holds for the single-name queries, which are asked with every name the database has and
@@ -97,12 +113,22 @@ RULE = ("cases are histories [init lines, tag filter, op list] over a pool of da
         "database / a new one) + every op of the alphabet x 3 targets, both spellings; enumerated odd tags: every "
         "op sequence of length 1..2 (21 ops, both spellings) on a collection with tags that are not facet::name "
         "(f:x, f:sub::y, special, g, :lead) and one with a colon after the '::' (w::i:r); "
+        "enumerated repeats: 4752 histories [derivation D of member 0; one of 11 routes to its data - nothing, "
+        "insert, insert into D's answer, insert through a reverse() / filter_tags / filter_packages view, "
+        "qread() or read() of another collection, a failing read(); D of member 0 again; nothing / insert into the "
+        "second answer / insert into member 0] for 36 derivations (the 4 plain ones; each of the 8 choices / filters "
+        "keeping everything, nothing, all but the first, all but the last key) x 4 spellings of the two calls; "
+        "enumerated boundary filters: 32256 histories [one of those 32 choices / filters + every op sequence of "
+        "length 1..2 over 4 inserts, reverse, copy, facet_collection, filter_tags / filter_packages keeping "
+        "everything x targets], both spellings; after every insert every live database is looked at "
+        "(unchanged unless it documentedly shares a package set the insert adds to); "
         "generated: 0..8 initial packages "
         "in single- and multi-package lines (distinct names of 1..6 characters; one-character names in "
         "about half of the positions and exclusively in a quarter of the histories), 14 facet::tag "
         "names sharing 6 facets (+ w::i:r and, in about a tenth of the lines and inserts, the odd tags), "
         "optional tag_filter, 1..12 operations (thorough: 1..20) = inserts, "
-        "all 12 derivations (choose_packages_copy also with names the collection lacks), every read() "
+        "all 12 derivations (choose_packages_copy also with names the collection lacks; about a fifth of the "
+        "selections relative to the target: every key, none, all but one), every read() "
         "in one of the four input forms, a third of the steps through the deprecated aliases, "
         "further read()s into the pool and into existing members, read()s that fail midway (input or tag_filter "
         "raises at position 0..7; into a member or a new DB) with the history going on afterwards, multi-name "
@@ -115,6 +141,17 @@ RULE = ("cases are histories [init lines, tag filter, op list] over a pool of da
 ASSUMPTIONS = [
     "reference relation vcheck/model/c20_relation.py (dict-of-sets semantics written from the docstrings)",
     "filter predicates are given as explicit sets; filter_packages_tags keeps (p, ts) with p in pkgs or ts & tags",
+    "sharing is what the docstrings say and no more: reverse() shares the tagsets of both indexes (the pair "
+    "is also allowed to share the dictionaries), choose_packages / filter_packages / filter_packages_tags share "
+    "the forward (tag) sets only, filter_tags the reverse (package) sets only, every *_copy / copy / "
+    "facet_collection / read / qread nothing; insert(new package, tags) adds the name to the package sets of the "
+    "tags (in place or not) and creates a new tagset - so a database holding none of those package sets must be "
+    "unchanged after it, one holding some may gain the inserted name / the given tags as keys or members (while "
+    "the known finding is listed also characters of the name) and nothing else; such a database is then taken in "
+    "the state it shows (checked through every query method) and later derivations from it follow the "
+    "'restrict one index, re-derive the other' reading of model/c20_relation.py",
+    "a read()/qread() into a database: views documented as sharing sets with its old content are not examined "
+    "any further (nothing says what becomes of them); every other database must be unchanged",
     "facet of a tag of the documented shape facet::name = the text before the '::' (= before its first colon); "
     "for any other tag text (f:x, f:sub::y, special, :x) the documentation defines no facet: facet_collection "
     "on a collection holding one is checked for same packages, facets of the well-formed tags, at most one "
@@ -147,12 +184,14 @@ EXHAUSTIVE = {
              "(70000, 4096) / (140000, 65536) with a newline on every multiple of the block x offset -1/0/+1 x "
              "4 input forms x last line with/without newline; 24 long failing read()s; 7424 failed-read "
              "histories (prefix x failure kind x position x target x follow-up op x spelling, see FAIL_DESC); "
-             "1806 op sequences of length 1..2 on the odd-tag collection (ODD_DESC)",
+             "1806 op sequences of length 1..2 on the odd-tag collection (ODD_DESC); 4752 repeated derivations "
+             "(36 derivations x 11 routes to the data in between x 4 spellings x 3 follow-ups, REPEAT_DESC); 32256 "
+             "histories after a choice / filter keeping everything / nothing / all but one (KEEP_DESC)",
     "thorough": "all op sequences of length 1..3 over the 19-op alphabet x both spellings and of length 1..4 over "
                 "its first 17 ops "
                 "(snake_case; no multi-name queries / pickle round trip) x target index 0..position on the fixed "
-                "collection; the 72 long-text read()s of the quick tier; the failed-read and odd-tag "
-                "enumerations of the quick tier",
+                "collection; the 72 long-text read()s of the quick tier; the failed-read, odd-tag, repeated-derivation "
+                "and boundary-filter enumerations of the quick tier",
 }
 BUDGET = {"quick": 200, "thorough": 1500}
 
@@ -339,17 +378,18 @@ class Entry(object):
         self.id, self.db, self.origin, self.parent = eid, db, origin, parent
         self.S = None        # agreed observable state (M, or M' after a known-finding hit)
         self.T = None        # what M alone says (differs from S only downstream of a hit)
-        self.cls = self
         self.live = True
         self.alias = False   # derived through the deprecated alias of ``origin``
         self.failed_read = False   # a read() into it has failed at some point
-
-    def find(self):
-        e = self
-        while e.cls is not e:
-            e.cls = e.cls.cls
-            e = e.cls
-        return e
+        # documented sharing (see Interp.bind): which *set* stands behind every key of the two
+        # indexes - an integer per set, equal integers = one set shared as documented
+        self.cf, self.cr = {}, {}
+        self.dg = object()   # databases that are reverse() views of one another carry the same token
+        self.flip = 0        # ... and this tells whether the roles are swapped relative to its first holder
+        self.down = False    # its state descends from a known-finding hit (S != T at some point)
+        self.loose = False   # its state was shaped by an insert into a database it shares sets with
+        self.routes = []     # what has changed (or tried to change) its data so far, in order
+        self.seen = 0        # for a derived database: len(parent.routes) when it was derived
 
     def name(self):
         return "#%d(%s)" % (self.id, ALIAS.get(self.origin, self.origin) if self.alias else self.origin)
@@ -374,6 +414,7 @@ class Interp(object):
         self.insert_after_derivation = False
         self.shared_tag = False
         self.steps = 0
+        self.cells = 0
 
     # -- pool -------------------------------------------------------------------------------
 
@@ -389,18 +430,45 @@ class Interp(object):
 
     def add(self, db, origin, parent, share):
         e = Entry(len(self.pool), db, origin, parent)
-        if share:
-            e.cls = parent.find()
         self.pool.append(e)
         return e
 
+    # -- documented sharing ------------------------------------------------------------------
+
+    def newcell(self):
+        self.cells += 1
+        return self.cells
+
+    def bind(self, e, fwd_from=None, rev_from=None, keep=False):
+        """Say which set stands behind every key ``e`` shows now: the one it had (``keep``), else
+        the one the given database has under that key (the docstring of the derivation says
+        "sharing tagsets / package sets with this one"), else a set of its own."""
+        old_f, old_r = (e.cf, e.cr) if keep else ({}, {})
+        fwd_from, rev_from = fwd_from or {}, rev_from or {}
+        e.cf = {k: old_f.get(k) or fwd_from.get(k) or self.newcell() for k in sorted(e.S.fwd)}
+        e.cr = {k: old_r.get(k) or rev_from.get(k) or self.newcell() for k in sorted(e.S.rev)}
+
+    def unbind(self, e):
+        """read()/qread() into ``e``: "Read the database" - it shares nothing with anyone any more."""
+        e.dg, e.flip = object(), 0
+        self.bind(e)
+
+    def sharers(self, e):
+        """The other live databases that, going by the docstrings of the derivations that made
+        them, hold a set ``e`` holds or are reverse() views of it."""
+        mine = set(e.cf.values()) | set(e.cr.values())
+        return [o for o in self.live() if o is not e and (
+            o.dg is e.dg or not mine.isdisjoint(o.cf.values()) or not mine.isdisjoint(o.cr.values()))]
+
     # -- the dual-model comparison ----------------------------------------------------------
 
-    def settle(self, e, spec, dev, truth, opname, opt_fwd=(), opt_rev=(), old=False):
+    def settle(self, e, spec, dev, truth, opname, opt_fwd=(), opt_rev=(), old=False, src=None):
         """Compare database ``e`` after ``opname`` with M (``spec``); failing that, and only while
         the known finding is listed, with M' (``dev``).  Fitting neither is a Violation.
         With ``old`` the database is looked at through the deprecated aliases of the query methods
-        (which must show exactly what the methods they document show)."""
+        (which must show exactly what the methods they document show).  ``src``: the database
+        the state was computed from (the source of a derivation, the writer of a pickle, ``e``
+        itself for an insert) - the new state descends from whatever that one descends from."""
         obs = observe(e.db, e.name(), old)
         if rel.agrees(obs, spec, opt_fwd, opt_rev):
             pass
@@ -422,8 +490,12 @@ class Interp(object):
             if k in opt_rev and k not in truth.rev:
                 truth.rev[k] = set()
         e.T = truth
-        if e.S != e.T:
+        e.down = e.S != e.T or (src is not None and src.down)
+        e.loose = src is not None and src.loose
+        if e.down:
             self.labels.add("state-downstream-of-known-finding")
+        elif e.loose:
+            self.labels.add("state-downstream-of-insert-through-shared-sets")
         elif not e.S.is_relation():
             raise AssertionError("model M produced a non-relation")
         check_queries(e.db, obs, e.name(), old)
@@ -470,6 +542,9 @@ class Interp(object):
             named = sorted({spelt(e) for e in edges if e.origin in COPYING.values()})
             if named:
                 return "+".join(named) + "-not-independent"
+            named = sorted({spelt(e) for e in edges if e.origin in SHARING.values()})
+            if named:          # only sharing derivations in between, but more is shared than they document
+                return "+".join(named) + "-shares-more-than-documented"
         return "%s-changes-unrelated-db" % opname
 
     # -- operations -------------------------------------------------------------------------
@@ -561,6 +636,7 @@ class Interp(object):
         model_lines = [(p, t) for p, t, _ in lines if p]    # a line without packages is a blank line
         self.settle(e, rel.read(model_lines, allowed), None, rel.read(model_lines, allowed), "read",
                     old=old)
+        self.unbind(e)
         return e
 
     def do_reread(self, e, entries, flt, form="iter", old=False, fail=None):
@@ -576,6 +652,7 @@ class Interp(object):
         stays in the pool for whatever the history does next."""
         lines = clean_lines(entries_of(entries), self.labels)
         allowed = None if flt is None else set(strs(flt))
+        views = self.sharers(e)
         try:
             self.feed(e.db, lines, allowed, form, fail=fail)
         except (InputFailure, UnicodeDecodeError) as exc:
@@ -583,13 +660,15 @@ class Interp(object):
                     fail[0] == "input" and form == "file") else InputFailure):
                 raise
             self.after_failed_read(e, "%s/%s" % (fail[0], form if form in FORMS else "iter"), old)
+            e.routes.append("failed-read")
             return e
-        for o in self.live():
-            if o is not e and o.find() is e.find():
-                o.live = False
+        for o in views:
+            o.live = False
         model_lines = [(p, t) for p, t, _ in lines if p]
         self.settle(e, rel.read(model_lines, allowed), None, rel.read(model_lines, allowed), "reread",
                     old=old)
+        self.unbind(e)
+        e.routes.append("read")
         self.labels.add("op:read-into-existing-db")
         return e
 
@@ -607,7 +686,7 @@ class Interp(object):
         self.labels.add("failed-read:" + what)
         self.labels.add("failed-read-into:%s" % (
             "new-db" if e.origin == "read" and not e.S.fwd and not e.S.rev else
-            "db-with-sharing-views" if any(o is not e and o.find() is e.find() for o in self.live())
+            "db-with-sharing-views" if self.sharers(e)
             else "existing-db"))
 
     def verify_all(self, actor, opname, sig):
@@ -702,22 +781,29 @@ class Interp(object):
         for s in srcs:
             s.db.qwrite(buf)
             self.verify_all(s, "qwrite", "qwrite-changes-collection")
-        written = [(s, s.S.copy(), s.T.copy()) for s in srcs]
+        written = []
+        for s in srcs:               # what the writer was when it wrote
+            w = Entry(s.id, None, s.origin, None)
+            w.S, w.T, w.down, w.loose = s.S.copy(), s.T.copy(), s.down, s.loose
+            written.append((s, w.S, w.T, w))
         buf.seek(0)
         out = []
         holder = None
         if mode == "into":
-            for o in self.live():
-                if o is not e and o.find() is e.find():
-                    o.live = False
+            for o in self.sharers(e):
+                o.live = False
             holder = e
             self.labels.add("qread-into-existing-db")
-        for s, spec, truth in written:
+            if written[-1][1] != e.S:
+                self.labels.add("qread-into-existing-db:other-content")
+        for s, spec, truth, w in written:
             if holder is None:
                 holder = self.add(DB(), "qread", s, False)
                 out.append(holder)
             holder.db.qread(buf)
-            self.settle(holder, spec, None, truth, "qread", old=old)
+            self.settle(holder, spec, None, truth, "qread", old=old, src=w)
+            self.unbind(holder)
+            holder.routes.append("qread")
             self.verify_others(holder, "qread")
             if mode == "fresh":
                 holder = None
@@ -726,7 +812,7 @@ class Interp(object):
             self.labels.add("qio:2+-collections-in-one-file/" + mode)
             if any(a[1] != b[1] for a, b in zip(written, written[1:])):
                 self.labels.add("qio:different-collections-in-one-file")
-        if any(sp.fwd != sp.rev for _, sp, _ in written):
+        if any(sp.fwd != sp.rev for _, sp, _, _ in written):
             self.labels.add("qio:collection-differs-from-its-reverse")
         if mode == "reuse":
             self.labels.add("qread-twice-into-one-db" if len(written) >= 2 else "qread-into-new-db")
@@ -738,22 +824,23 @@ class Interp(object):
             return False
         tags = set(strs(tags))
         arg = set(tags)
+        # the sets an insert may add a name to: the package sets of its tags (the tagset of the new
+        # package is a new set).  Who else holds one of them, going by the docstrings?
+        touched = {e.cr[t] for t in tags if t in e.cr}
+        views = self.sharers(e)
+        others = [(o, o in views, o.dg is e.dg or not touched.isdisjoint(o.cf.values())
+                   or not touched.isdisjoint(o.cr.values())) for o in self.live() if o is not e]
         e.db.insert(pkg, arg)
         if arg != tags:
             raise Violation("insert-mutates-argument", "insert(%r, %s) left the argument as %s" % (
                 pkg, sorted(tags), sorted(arg)))
-        retired = 0
-        for o in self.live():
-            if o is not e and o.find() is e.find():
-                o.live = False
-                retired += 1
         self.labels.add("insert:1-char-name" if len(pkg) == 1 else "insert:multi-char-name")
         if any(t not in e.S.rev for t in tags):
             self.labels.add("insert:new-tag/1-char" if len(pkg) == 1 else "insert:new-tag/multi-char")
         if any(t in e.S.rev for t in tags):
             self.labels.add("insert:existing-tag")
-        if retired:
-            self.labels.add("insert-retires-sharing-views")
+        if views:
+            self.labels.add("insert-into-db-with-sharing-views")
         if e.origin in COPYING.values():
             self.labels.add("insert-into-copy")
         if e.origin in SHARING.values():
@@ -763,9 +850,65 @@ class Interp(object):
         if self.derived:
             self.insert_after_derivation = True
         self.settle(e, rel.insert(e.S, pkg, tags), rel.insert(e.S, pkg, tags, deviant=True),
-                    rel.insert(e.T, pkg, tags), "insert", old=old)
-        self.verify_others(e, "insert")
+                    rel.insert(e.T, pkg, tags), "insert", old=old, src=e)
+        self.bind(e, keep=True)
+        e.routes.append("insert")
+        self.after_insert(e, pkg, tags, others)
         return True
+
+    def after_insert(self, e, pkg, tags, others):
+        """Every other live database is looked at after an insert into ``e``.
+
+        One that - going by the docstrings of the derivations between them - holds none of the
+        package sets the insert adds a name to, and is not a reverse() view of ``e``, shows exactly
+        what it showed before: that is every copy, every unrelated database, and also a
+        choose_packages / filter_packages / filter_packages_tags view and its source (they share
+        *tagsets*, and an insert of a new package adds to no existing tagset), whatever the filter
+        kept.  One that does hold such a set (a filter_tags view or its source, a reverse() view,
+        views of those) may show the new name - its two indexes are then not promised to be
+        inverse - but nothing else: every key and every member it had is still there, and whatever
+        is new is the inserted name or one of the given tags (or, while the known finding is
+        listed, a character of the name).  What it shows now is what its query methods answer,
+        and it is the state every later operation on it starts from."""
+        names = {pkg} | set(tags) | (set(pkg) if KNOWN_ID in self.allowed else set())
+        for o, view, may in others:
+            if not o.live:
+                continue
+            obs = observe(o.db, o.name())
+            if obs == o.S:
+                if view:
+                    self.labels.add("insert:sharing-view-unchanged" if not may else
+                                    "insert:view-sharing-the-package-sets-unchanged")
+                continue
+            if not may:
+                raise Violation(self.blame(e, o, "insert"), "insert(%r, %s) on %s changed %s: %s" % (
+                    pkg, sorted(tags), e.name(), o.name(), rel.diff(obs, o.S)))
+            for was, now in ((o.S.fwd, obs.fwd), (o.S.rev, obs.rev)):
+                for k in sorted(set(was) | set(now)):
+                    if (k not in was and (k not in names or not now[k] <= names)) or (
+                            k in was and (k not in now or not was[k] <= now[k]
+                                          or not now[k] - was[k] <= names)):
+                        raise Violation("insert-through-shared-sets-changes-other-pairs",
+                                        "insert(%r, %s) on %s left %s as: %s" % (
+                                            pkg, sorted(tags), e.name(), o.name(), rel.diff(obs, o.S)))
+            check_queries(o.db, obs, o.name())
+            if observe(o.db, o.name()) != obs:
+                raise Violation("query-changes-collection", "%s after the query methods were called: %s" % (
+                    o.name(), rel.diff(observe(o.db, o.name()), obs)))
+            o.S, o.T = obs, obs.copy()
+            o.routes.append("insert-into-a-reverse-view" if o.dg is e.dg else "insert-into-a-db-sharing-sets")
+            o.down = o.down or e.down
+            if obs.is_relation():
+                self.labels.add("insert:sharing-view-follows")
+            else:
+                o.loose = True
+                self.labels.add("insert:sharing-view-no-longer-inverse")
+            if o.dg is e.dg:           # a reverse() view of e: the new keys stand for e's new sets
+                self.bind(o, *((e.cf, e.cr) if o.flip == e.flip else (e.cr, e.cf)), keep=True)
+            else:
+                self.bind(o, keep=True)
+            if obs.max_card() >= 2:
+                self.shared_tag = True
 
     def do_derive(self, op, e, a, b, old=False):
         S, T = e.S, e.T
@@ -783,7 +926,7 @@ class Interp(object):
             for ts in S.fwd.values():
                 tags |= ts
             strict = all(rel.facetable(t) for t in tags)
-            if not strict and S != T:
+            if not strict and e.down:
                 self.labels.add("note:facet-skipped-tag-without-facet-downstream-of-known-finding")
                 return None
             order = list(e.db.iter_packages())
@@ -797,7 +940,7 @@ class Interp(object):
             if len({rel.facet_of(t) for t in tags}) < len(tags):
                 self.labels.add("facet-merges-tags")
         elif op in ("choose", "choose_copy", "filter_packages", "filter_packages_copy"):
-            sel = set(strs(a))
+            sel = self.selection(a, S.fwd)
             if op == "choose":
                 nd = call("choose_packages")(sorted(sel))
                 if sel - set(S.fwd):
@@ -811,13 +954,13 @@ class Interp(object):
             (spec, opt_rev), (truth, _) = (rel.restrict_packages(S, lambda p, ts: p in sel),
                                            rel.restrict_packages(T, lambda p, ts: p in sel))
         elif op in ("filter_packages_tags", "filter_packages_tags_copy"):
-            sel, tsel = set(strs(a)), set(strs(b))
+            sel, tsel = self.selection(a, S.fwd), self.selection(b, self.tags_in(S))
             pred = lambda pt: pt[0] in sel or bool(pt[1] & tsel)   # noqa: E731
             nd = call(op)(pred)
             keep = lambda p, ts: p in sel or bool(ts & tsel)       # noqa: E731
             (spec, opt_rev), (truth, _) = rel.restrict_packages(S, keep), rel.restrict_packages(T, keep)
         elif op in ("filter_tags", "filter_tags_copy"):
-            tsel = set(strs(a))
+            tsel = self.selection(a, S.rev)
             nd = call(op)(lambda t: t in tsel)
             (spec, opt_fwd), (truth, _) = (rel.restrict_tags(S, lambda t: t in tsel),
                                            rel.restrict_tags(T, lambda t: t in tsel))
@@ -831,7 +974,7 @@ class Interp(object):
         origin = SHARING[op] if share else COPYING[op]
         if e.origin != "read":
             self.labels.add("derivation-of-derivation")
-            if share and e.find() is not e:
+            if share and self.sharers(e):
                 self.labels.add("transitive-sharing")
         n = self.add(nd, origin, e, share)
         self.labels.add("op:" + origin)
@@ -839,14 +982,65 @@ class Interp(object):
             n.alias = True
             self.labels.add("op-via-alias:" + ALIAS[origin])
             origin = ALIAS[origin]
-        if S != T:
+        if e.down:
             self.labels.add("derivation-from-state-downstream-of-known-finding")
-        self.settle(n, spec, dev, truth, origin, opt_fwd, opt_rev, old)
+        if e.loose:
+            self.labels.add("derivation-from-state-downstream-of-insert-through-shared-sets")
+        n.seen = len(e.routes)
+        prev = [o for o in self.pool if o.parent is e and o.origin == n.origin and o is not n]
+        if prev:                # asked before on this very object: what happened to its data since?
+            self.labels.add("derivation-repeated-on-the-same-db")
+            for r in sorted(set(e.routes[prev[-1].seen:])) or ["nothing"]:
+                self.labels.add("derivation-repeated-after:" + r)
+            if prev[-1].alias != n.alias:
+                self.labels.add("derivation-repeated-under-the-other-spelling")
+        self.settle(n, spec, dev, truth, origin, opt_fwd, opt_rev, old, src=e)
+        if op == "reverse":                       # "sharing tagsets with this one"
+            n.dg, n.flip = e.dg, e.flip ^ 1
+            self.bind(n, e.cr, e.cf)
+        elif op in ("choose", "filter_packages", "filter_packages_tags"):     # "sharing tagsets"
+            self.bind(n, e.cf, None)
+        elif op == "filter_tags":                 # "sharing package sets with this one"
+            self.bind(n, None, e.cr)
+        else:                                     # "a copy of ..."
+            self.bind(n)
         if len(spec.fwd) not in (0, len(S.fwd)) or len(spec.rev) not in (0, len(S.rev)):
             self.labels.add("proper-restriction")
+        if op not in ("reverse", "reverse_copy", "copy", "facet"):
+            side, was = (spec.rev, S.rev) if op.startswith("filter_tags") else (spec.fwd, S.fwd)
+            if len(was) >= 2:
+                kind = ("restriction-keeps-everything" if len(side) == len(was) else
+                        "restriction-keeps-nothing" if not side else
+                        "restriction-keeps-all-but-one" if len(side) == len(was) - 1 else None)
+                if kind:
+                    self.labels.add(kind)
+                    self.labels.add("%s/%s" % (kind, "sharing" if share else "copy"))
         self.derived = True
         self.verify_others(n, origin)
         return n
+
+    @staticmethod
+    def tags_in(S):
+        out = set(S.rev)
+        for ts in S.fwd.values():
+            out |= ts
+        return out
+
+    @staticmethod
+    def selection(spec, keys):
+        """The names a filter / choice lets through: a list of names, or - relative to what the
+        target holds when the operation runs - {"keep": "all"} every key, {"keep": "none"} no
+        name at all, {"keep": "all-but", "j": n} every key except the n-th (modulo, sorted)."""
+        if isinstance(spec, dict):
+            ks = sorted(keys)
+            keep, j = spec.get("keep"), spec.get("j")
+            if keep == "all":
+                return set(ks)
+            if keep == "all-but" and ks:
+                j = j if isinstance(j, int) and not isinstance(j, bool) else 0
+                return set(ks) - {ks[j % len(ks)]}
+            return set()
+        return set(strs(spec))
 
     def loose_facets(self, nd, S, origin):
         """facet_collection() of a collection in which some tag is not of the shape facet::name.
@@ -1082,6 +1276,74 @@ def fail_cases():
                                        "ops": head + [[mark + o[0], i] + o[1:]]}
 
 
+# every derivation asked twice of the same object, its data changed in between through another route
+ALL, NONE, ALL_BUT = {"keep": "all"}, {"keep": "none"}, {"keep": "all-but", "j": 0}
+SELS = [ALL, NONE, ALL_BUT, {"keep": "all-but", "j": -1}]
+REPEAT_DERIVS = ([["reverse"], ["reverse_copy"], ["copy"], ["facet"]]
+                 + [[op, sel] for op in ("choose", "choose_copy", "filter_packages", "filter_packages_copy",
+                                         "filter_tags", "filter_tags_copy") for sel in SELS]
+                 + [[op, a, b] for op in ("filter_packages_tags", "filter_packages_tags_copy")
+                    for a, b in ((ALL, []), ([], ALL), ([], []), (ALL_BUT, []))])
+OTHER_LINES = [[["p"], ["k::n"], 0], [["u", "q"], ["f::a", "m::x"], 0], [["w"], [], 0]]
+# the object asked is member 0, the first answer member 1, what a route creates member 2
+REPEAT_ROUTES = [
+    ("nothing", []),
+    ("insert", [["insert", 0, "n", ["f::a", "k::n"]]]),
+    ("insert into the first answer", [["insert", 1, "n", ["f::a", "k::n"]]]),
+    ("insert into the first answer, roles swapped", [["insert", 1, "k::n", ["p", "n"]]]),
+    ("reverse() view: a known package under a new tag", [["reverse", 0], ["insert", 2, "k::n", ["p"]]]),
+    ("reverse() view: a new package, too", [["reverse", 0], ["insert", 2, "k::n", ["p", "z"]]]),
+    ("filter_tags view keeping every tag: insert", [["filter_tags", 0, ALL], ["insert", 2, "n", ["f::a", "k::n"]]]),
+    ("filter_packages view keeping every package: insert",
+     [["filter_packages", 0, ALL], ["insert", 2, "n", ["f::a", "k::n"]]]),
+    ("qread() of another collection", [["read", OTHER_LINES, None, "iter"], ["qio", 0, [-1], "into"]]),
+    ("read() of another collection", [["reread", 0, OTHER_LINES, None, "list"]]),
+    ("read() that fails", [["failread", 0, OTHER_LINES, None, "iter", 2, "input"]]),
+]
+REPEAT_AFTER = [[], [["insert", -1, "m", ["g::b"]]], [["insert", 0, "m", ["g::b"]]]]
+REPEAT_DESC = ("%d derivations (reverse, reverse_copy, copy, facet_collection; each choice / filter keeping every "
+               "key, none, all but the first, all but the last of what the database holds when asked) asked of "
+               "one database, then one of %d routes to its data [%s], then the same derivation of the same "
+               "database again - 4 spellings (snake_case / deprecated alias for the first and the second "
+               "call) - then nothing / an insert into the second answer / an insert into the database" % (
+                   len(REPEAT_DERIVS), len(REPEAT_ROUTES), "; ".join(r[0] for r in REPEAT_ROUTES)))
+
+
+def repeat_cases():
+    for d in REPEAT_DERIVS:
+        for _, route in REPEAT_ROUTES:
+            for m1, m2 in (("", ""), (OLD, ""), ("", OLD), (OLD, OLD)):
+                for after in REPEAT_AFTER:
+                    yield {"kind": "history", "init": ENUM_INIT, "filter": None,
+                           "ops": [[m1 + d[0], 0] + d[1:]] + [list(o) for o in route]
+                           + [[m2 + d[0], 0] + d[1:]] + [list(o) for o in after]}
+
+
+# choices and filters that keep everything / nothing / all but one, then every op sequence of length 1..2
+KEEP_DERIVS = [d for d in REPEAT_DERIVS if len(d) > 1]
+KEEP_OPS = [["insert", "n", ["f::a"]], ["insert", "nn", ["g::b", "k::a"]], ["insert", "f::n", ["p"]],
+            ["insert", "k::n", ["s", "z"]], ["reverse"], ["copy"], ["facet"], ["filter_tags", ALL],
+            ["filter_packages", ALL]]
+KEEP_DESC = ("%d choices / filters (all 8 methods; keeping every key, none, all but the first, all but the last) "
+             "of the fixed collection, then every op sequence of length 1..2 over %d ops (4 inserts, reverse, copy, "
+             "facet_collection, filter_tags and filter_packages keeping everything) x target index 0..position+1, "
+             "both spellings; every live database is looked at after every step" % (len(KEEP_DERIVS), len(KEEP_OPS)))
+
+
+def keep_cases():
+    for mark in ("", OLD):
+        for d in KEEP_DERIVS:
+            head = [[mark + d[0], 0] + d[1:]]
+            for o1 in KEEP_OPS:
+                for i in range(2):
+                    one = head + [[mark + o1[0], i] + o1[1:]]
+                    yield {"kind": "history", "init": ENUM_INIT, "filter": None, "ops": one}
+                    for o2 in KEEP_OPS:
+                        for j in range(3):
+                            yield {"kind": "history", "init": ENUM_INIT, "filter": None,
+                                   "ops": one + [[mark + o2[0], j] + o2[1:]]}
+
+
 # read() of long texts: (characters, block size) x offset of the aligned newlines x input form x
 # last line with/without newline; each followed by a copy-derivation and an insert
 BIG_SHAPES = [(3000, 512), (70000, 4096), (140000, 65536)]
@@ -1157,17 +1419,20 @@ ins_tags = st.one_of(subset(HOT, 2, 1), subset(HOT, 2, 1), subset(HOT, 3, 1),
                      subset(HOT + ODD_TAGS, 2, 1),
                      st.lists(st.one_of(ANY, ANY, st.sampled_from(HOT)), min_size=1, max_size=2),
                      st.just([]))
+# relative to what the target holds when the operation runs: every key / all but one / none (Interp.selection)
+keepsel = st.one_of(st.just({"keep": "all"}), st.just({"keep": "all"}), st.just({"keep": "none"}),
+                    st.builds(lambda j: {"keep": "all-but", "j": j}, st.integers(0, 7)))
 psel = st.one_of(st.lists(ANY, max_size=8), st.lists(ANY, min_size=1, max_size=4),
-                 st.lists(st.one_of(ANY, st.sampled_from(TAGS)), max_size=8), subset(TAGS, 5))
+                 st.lists(st.one_of(ANY, st.sampled_from(TAGS)), max_size=8), subset(TAGS, 5), keepsel)
 tsel = st.one_of(subset(TAGS, 6), subset(HOT, 3, 1), subset(TAGS, 8, 2),
-                 st.lists(st.one_of(ANY, st.sampled_from(TAGS)), max_size=8))
+                 st.lists(st.one_of(ANY, st.sampled_from(TAGS)), max_size=8), keepsel)
 op_insert = st.tuples(st.just("insert"), IDX, ins_pkg, ins_tags)
 op_d0 = st.tuples(st.sampled_from(["reverse", "reverse_copy", "copy"]), IDX)
 op_facet = st.tuples(st.just("facet"), IDX)
 op_d1 = st.tuples(st.sampled_from(["choose", "choose_copy", "filter_packages", "filter_packages_copy"]),
                   IDX, psel)
 op_d2 = st.tuples(st.sampled_from(["filter_packages_tags", "filter_packages_tags_copy"]), IDX,
-                  st.lists(st.one_of(ANY, st.sampled_from(TAGS)), max_size=3), tsel)
+                  st.one_of(st.lists(st.one_of(ANY, st.sampled_from(TAGS)), max_size=3), keepsel), tsel)
 op_d3 = st.tuples(st.sampled_from(["filter_tags", "filter_tags_copy"]), IDX, tsel)
 form = st.sampled_from(FORMS)
 op_read = st.tuples(st.just("read"), read_lines, tag_filter, form)
@@ -1209,6 +1474,8 @@ def resolve_case(mode, names, init, flt, ops, form="iter", final_newline=True):
         return x
 
     def refs(xs):
+        if isinstance(xs, dict):             # {"keep": ...}: resolved by the interpreter
+            return dict(xs)
         out = []
         for x in xs:
             x = ref(x)
@@ -1320,8 +1587,10 @@ def machine_phase(shard, nshards, seed, deadline, rec):
     m_tags = st.one_of(subset(HOT, 2, 1), subset(HOT, 3, 1), subset(TAGS + EXTRA_TAGS, 3),
                        st.lists(st.one_of(mname, st.sampled_from(HOT)), unique=True, min_size=1,
                                 max_size=2), st.just([])).map(sorted)
-    m_psel = st.one_of(subset(MACHINE_POOL_NAMES, 8), subset(universe, 8), subset(TAGS, 5)).map(sorted)
-    m_tsel = st.one_of(subset(TAGS, 6), subset(HOT, 3, 1), subset(universe, 8)).map(sorted)
+    m_psel = st.one_of(subset(MACHINE_POOL_NAMES, 8).map(sorted), subset(universe, 8).map(sorted),
+                       subset(TAGS, 5).map(sorted), keepsel)
+    m_tsel = st.one_of(subset(TAGS, 6).map(sorted), subset(HOT, 3, 1).map(sorted),
+                       subset(universe, 8).map(sorted), keepsel)
     m_filter = st.one_of(st.none(), st.none(), subset(TAGS, 7).map(sorted))
     m_old = st.sampled_from([False, False, True])
     def distinct(lines):
@@ -1418,7 +1687,8 @@ def machine_phase(shard, nshards, seed, deadline, rec):
         def select_packages(self, e, op, sel, old):
             return self.apply(lambda i: [op, i, sel], e, old)
 
-        @rule(target=dbs, e=dbs, sel=subset(universe, 4).map(sorted), tsel=m_tsel, old=m_old,
+        @rule(target=dbs, e=dbs, sel=st.one_of(subset(universe, 4).map(sorted), keepsel), tsel=m_tsel,
+              old=m_old,
               op=st.sampled_from(["filter_packages_tags", "filter_packages_tags_copy"]))
         def select_packages_tags(self, e, op, sel, tsel, old):
             return self.apply(lambda i: [op, i, sel, tsel], e, old)
@@ -1472,11 +1742,15 @@ def sources(tier):
                 Enum("long-texts", big_cases, LONG_DESC),
                 Enum("failed-reads", fail_cases, FAIL_DESC),
                 Enum("odd-tags<=2", enum_cases(2, ODD_OPS, ("", OLD), ODD_INIT), ODD_DESC),
+                Enum("repeated-derivations", repeat_cases, REPEAT_DESC),
+                Enum("keep-all-none-all-but-one", keep_cases, KEEP_DESC),
                 Hyp("pool-histories", gen_case(12), 400, shards=8)]
     return [Enum("op-alphabet<=3", enum_cases(3, ENUM_OPS_IO, ("", OLD)), EXHAUSTIVE["quick"]),
             Enum("long-texts", big_cases, LONG_DESC),
             Enum("failed-reads", fail_cases, FAIL_DESC),
             Enum("odd-tags<=2", enum_cases(2, ODD_OPS, ("", OLD), ODD_INIT), ODD_DESC),
+            Enum("repeated-derivations", repeat_cases, REPEAT_DESC),
+            Enum("keep-all-none-all-but-one", keep_cases, KEEP_DESC),
             Enum("op-alphabet17<=4", enum_cases(4, ENUM_OPS), EXHAUSTIVE["thorough"]),
             Hyp("pool-histories", gen_case(20), 5000, shards=16),
             Custom("state-machine", machine_phase, shards=8)]
